@@ -135,17 +135,25 @@ class ZooMesh:
     def dim(self):
         return max(dim_of(k) for k in self.groups)
 
-    def build(self, with_boundary=True):
-        """-> EasyFEA Mesh (fresh objects on every call)."""
+    def build(self, with_boundary=True, coord_dtype=None):
+        """-> EasyFEA Mesh (fresh objects on every call).
+        coord_dtype (optional, default: float64 as stored): dtype of the coordinate array handed to the library, e.g. "int64" for a
+        hand-typed mesh whose node coordinates are whole numbers (the coordinates must then be whole numbers: nothing is lost)."""
         from EasyFEA.FEM._group_elem import GroupElemFactory
         from EasyFEA.FEM._mesh import Mesh
 
+        co = self.coords
+        if coord_dtype is not None and np.dtype(coord_dtype).kind in "iu":
+            assert np.abs(co - np.rint(co)).max(initial=0.0) < 1e-9, "harness: integer-typed coordinates need whole-number coordinates"
+            co = np.rint(co).astype(coord_dtype)
+        elif coord_dtype is not None:
+            co = co.astype(coord_dtype)
         d = {}
         if with_boundary:
             for et, con in self.boundary.items():
-                d[_ET(et)] = GroupElemFactory.Create(_ET(et), con.copy(), self.coords.copy())
+                d[_ET(et)] = GroupElemFactory.Create(_ET(et), con.copy(), co.copy())
         for et, con in self.groups.items():
-            d[_ET(et)] = GroupElemFactory.Create(_ET(et), con.copy(), self.coords.copy())
+            d[_ET(et)] = GroupElemFactory.Create(_ET(et), con.copy(), co.copy())
         return Mesh(d)
 
     # -- derived meshes
